@@ -243,6 +243,9 @@ func (e *evaluator) eval(op string, args []string) (res string, val starlark.Val
 		}
 		return render(v), v
 	}
+	if strings.HasPrefix(op, "go_") {
+		return e.goAPI(op, args)
+	}
 	if op == "lituse" {
 		// the literal used as shift count, repetition count, index, key and member
 		t := args[0][1:]
@@ -1307,4 +1310,136 @@ func init() {
 		},
 		BudgetQuick: 75, BudgetThorough: 1200,
 	})
+}
+
+// goAPI: the exported conversions between Starlark numbers and Go numbers.
+// Each result is rendered through big.Int / the float's bits, so that the
+// rendering does not use the code under test.
+func (e *evaluator) goAPI(op string, args []string) (string, starlark.Value) {
+	x, err := argValue(args[0])
+	if err != nil {
+		fw.Fatal("c10: %v", err)
+	}
+	bigS := func(b *big.Int) string { return "i" + b.String() }
+	fl := func(f float64) string {
+		if f != f {
+			return "fnan"
+		}
+		return fmt.Sprintf("f%016x", math.Float64bits(f))
+	}
+	switch op {
+	case "go_asint":
+		var err error
+		var got *big.Int
+		switch args[1][1:] {
+		case "int":
+			var v int
+			err, got = starlark.AsInt(x, &v), big.NewInt(int64(v))
+		case "int8":
+			var v int8
+			err, got = starlark.AsInt(x, &v), big.NewInt(int64(v))
+		case "int16":
+			var v int16
+			err, got = starlark.AsInt(x, &v), big.NewInt(int64(v))
+		case "int32":
+			var v int32
+			err, got = starlark.AsInt(x, &v), big.NewInt(int64(v))
+		case "int64":
+			var v int64
+			err, got = starlark.AsInt(x, &v), big.NewInt(v)
+		case "uint":
+			var v uint
+			err, got = starlark.AsInt(x, &v), new(big.Int).SetUint64(uint64(v))
+		case "uint8":
+			var v uint8
+			err, got = starlark.AsInt(x, &v), new(big.Int).SetUint64(uint64(v))
+		case "uint16":
+			var v uint16
+			err, got = starlark.AsInt(x, &v), new(big.Int).SetUint64(uint64(v))
+		case "uint32":
+			var v uint32
+			err, got = starlark.AsInt(x, &v), new(big.Int).SetUint64(uint64(v))
+		case "uint64":
+			var v uint64
+			err, got = starlark.AsInt(x, &v), new(big.Int).SetUint64(v)
+		case "uintptr":
+			var v uintptr
+			err, got = starlark.AsInt(x, &v), new(big.Int).SetUint64(uint64(v))
+		default:
+			fw.Fatal("c10: go_asint type %q", args[1])
+		}
+		if err != nil {
+			return "E", nil
+		}
+		return bigS(got), nil
+	case "go_asint32":
+		v, err := starlark.AsInt32(x)
+		if err != nil {
+			return "E", nil
+		}
+		return bigS(big.NewInt(int64(v))), nil
+	case "go_numbertoint":
+		v, err := starlark.NumberToInt(x)
+		if err != nil {
+			return "E", nil
+		}
+		return bigS(v.BigInt()), v
+	case "go_asfloat":
+		f, ok := starlark.AsFloat(x)
+		if !ok {
+			return "E", nil
+		}
+		return fl(f), nil
+	}
+	xi, ok := x.(starlark.Int)
+	if !ok {
+		return "E", nil
+	}
+	switch op {
+	case "go_int64":
+		v, ok := xi.Int64()
+		if !ok {
+			return "E", nil
+		}
+		return bigS(big.NewInt(v)), nil
+	case "go_uint64":
+		v, ok := xi.Uint64()
+		if !ok {
+			return "E", nil
+		}
+		return bigS(new(big.Int).SetUint64(v)), nil
+	case "go_float":
+		return fl(float64(xi.Float())), nil
+	case "go_sign":
+		return bigS(big.NewInt(int64(xi.Sign()))), nil
+	case "go_roundtrip":
+		// BigInt returns a copy the caller may change; Make* of the Go value gives an equal Int with the same hash
+		b := xi.BigInt()
+		saved := new(big.Int).Set(b)
+		b.Add(b, big.NewInt(12345))
+		if xi.BigInt().Cmp(saved) != 0 {
+			return "sBigInt() aliases the Int: changing the result changed the Int", nil
+		}
+		cands := []starlark.Int{starlark.MakeBigInt(saved)}
+		if saved.IsInt64() {
+			cands = append(cands, starlark.MakeInt64(saved.Int64()))
+			if int64(int(saved.Int64())) == saved.Int64() {
+				cands = append(cands, starlark.MakeInt(int(saved.Int64())))
+			}
+		}
+		if saved.IsUint64() {
+			cands = append(cands, starlark.MakeUint64(saved.Uint64()), starlark.MakeUint(uint(saved.Uint64())))
+		}
+		h0, _ := xi.Hash()
+		for i, c := range cands {
+			eq, err := starlark.Equal(xi, c)
+			h, _ := c.Hash()
+			if err != nil || !eq || h != h0 || c.String() != saved.String() {
+				return fmt.Sprintf("sconstructor %d gives %s (equal %v, hash %d vs %d) for %s", i, c.String(), eq, h, h0, saved), nil
+			}
+		}
+		return bigS(saved), nil
+	}
+	fw.Fatal("c10: unknown op %q", op)
+	return "", nil
 }
